@@ -132,6 +132,11 @@ def run(p: Program, rep: Report, tier: str) -> None:
                 rep.violation("R18.2", construct(build, text="port elision"), where(build), "the port is not elided exactly when it equals the scheme's default (or is None)")
             else:
                 rep.ok("R18.2", f"port {'elided' if elided else 'kept'} consistently with the default-port test")
+    tested_q = any((("param", "query_string"), b) in pa.facts for pa in paths for b in (True, False))
+    if tested_q:
+        rep.ok("R18.2", "the query string is appended only when non-empty")
+    else:
+        rep.violation("R18.2", construct(build, text="query not tested"), where(build), "_build_url never tests the query string: '?' is appended (or the query dropped) regardless of whether there is a query")
     tables = [n for n in ast.walk(build.node) if isinstance(n, ast.Subscript) and isinstance(n.value, ast.Dict)]
     if len(tables) == 1:
         try:
